@@ -112,7 +112,7 @@ Print Assumptions action_executed.
 (* evaluating the program and applying the top-level function read and write nothing *)
 Theorem effects_only_from_the_action n ip h w t argv h1 w1 v h2 w2 r d1 d2 :
   run (bs n) ip h w (force (VThunk t)) = Done h1 w1 (inl v) d1 ->
-  stage n ip (fun v => cli_apply v argv) h1 w1 v = Done h2 w2 r d2 -> w1 = w /\ w2 = w.
+  stage n ip (fun v => cli_apply v argv) h1 w1 v = Done h2 w2 r d2 -> io_of w1 = io_of w /\ io_of w2 = io_of w.
 Proof. exact (Cli.effects_only_from_the_action n ip h w t argv h1 w1 v h2 w2 r d1 d2). Qed.
 Print Assumptions effects_only_from_the_action.
 
